@@ -22,7 +22,7 @@ Viol(r) == CSVWrite("%1$s", <<ToJson(r)>>, "violations.ndjson")
 
 LineRec(line, failed) ==
    [case |-> line.case, T |-> line.T, opt |-> line.opt, gvs |-> line.gvs, failed |-> failed,
-    obs |-> [f \in (DOMAIN line \ {"case", "T", "opt", "gvs", "rt", "rdefs", "vals"}) |-> line[f]],
+    obs |-> [f \in (DOMAIN line \ {"case", "T", "opt", "gvs", "rt", "rdefs", "vals", "tng"}) |-> line[f]],
     class |-> LineClass(line, failed)]
 
 (* the harness built the type and the values TLC asked for *)
@@ -31,6 +31,9 @@ Realised(line) ==
    /\ \A i \in DOMAIN line.rdefs.k : line.rdefs.k[i] \in DefNames /\ line.rdefs.v[i] = Defs(line.rdefs.k[i])
    /\ ReachNames(line.T) = {line.rdefs.k[i] : i \in DOMAIN line.rdefs.k}
    /\ line.gvs = GoVals(line.T)
+   /\ UsesTypeNameGen(line.opt) =>        \* the type-name function the harness installed is the one of the spec
+         /\ {line.tng.k[i] : i \in DOMAIN line.tng.k} = ReachNames(line.T)
+         /\ \A i \in DOMAIN line.tng.k : line.tng.v[i] = TypeNameOf(line.opt, line.tng.k[i])
 
 Why(ref, fails) ==
    IF ref # ({f \in fails : f.kind # "format"} = {}) THEN "spec_formulations_disagree"
@@ -74,6 +77,8 @@ LineOK(line) ==
    ELSE IF line.gen # "ok" THEN Viol(LineRec(line, "generation_failed"))
    ELSE IF ~CompsWellFormed(line.comps) \/ ~RefsResolve(line.S, line.comps)
         THEN Viol(LineRec(line, "references_do_not_resolve_in_component_map"))
+   ELSE IF UsesTypeNameGen(line.opt) /\ ~NamesChosen(line.T, line.opt, line.S, line.comps)
+        THEN Viol(LineRec(line, "component_named_otherwise_than_the_callers_generator_chose"))
    ELSE IF line.load # "ok" THEN Viol(LineRec(line, "schema_does_not_load"))
    ELSE IF ~InFragment(line.S, line.comps) THEN Viol(LineRec(line, "schema_outside_judged_fragment"))
    ELSE IF Len(line.vals) # Len(line.gvs) THEN Viol(LineRec(line, "values_missing"))
